@@ -243,8 +243,11 @@ def frag(rng):
         return rng.choice(["42 U.S.C. § 1983", "Mass. Gen. Laws ch. 1, § 2 (West 1999)", "§ 5", "§§ 1-2",
                            "29 C.F.R. § 1910.1200(a)(2)", "Fla. Stat. § 1.01 (2020)",
                            "1 Stat. 2", "Pub. L. No. 94-553"])
-    if r < 0.77:
+    if r < 0.75:
         return f"{name(rng)} at {num(rng)}"
+    if r < 0.77:
+        # a reference whose pin-cite digits are also the volume of a following citation
+        return f"{name(rng)} at {num(rng)} {rep(rng)}{rng.choice([',', ''])} {num(rng)}"
     if r < 0.82:
         return f"In re {name(rng)} ({rng.choice(['1999', '2010', '2100'])}) {num(rng)} {rep(rng)} {num(rng)}"
     if r < 0.86:
